@@ -18,6 +18,10 @@ E  a pool of interpreter processes started with different PYTHONHASHSEEDs
    Set/DictMembership, NoHashCacheAfterUnpickle.  Life-cycle behaviours are
    replayed across processes with different seeds and the observed trace is
    validated against PtEq's step function.
+M  spec/PtEqMemo.tla: the memoised pairwise comparison as a state machine on
+   every pair of expressions over a pool of N nodes (OncePerPair, MemoSound,
+   ResultIsStructEq); event traces of the real EqualityComparer on DAGs with up
+   to 2^18 paths are judged by the same clauses.
 Three voices: generator prediction, StructEq on the export, pytato.  The first
 two disagreeing is a machinery failure (exit 2), never a violation.
 """
@@ -81,8 +85,11 @@ def eval_families(pool: Pool, seeds: list[int], per_seed: int, cases: list[dict]
     def phase2(key: tuple[int, int]) -> list[dict]:
         s, k = key
         prev = seeds[(seeds.index(s) - 1) % len(seeds)]
+        # every process exports every family; only the first seed ships the node
+        # lists, the others ship the digest of theirs (compared below)
         return widx[key].call("eqlib.families", cases=parts[k], members=members,
-                              xblobs=blobs[(prev, k)], want_keys=want_keys)
+                              xblobs=blobs[(prev, k)], want_keys=want_keys,
+                              want_nodes=s == seeds[0])
     with ThreadPoolExecutor(max_workers=len(keys)) as ex:
         recs = dict(zip(keys, ex.map(phase2, keys)))
     out: dict[str, dict[int, dict]] = defaultdict(dict)
@@ -104,9 +111,13 @@ def family_records(fams: dict[str, dict[int, dict]], kinds: dict[str, dict],
         by_export: dict[str, dict] = {}
         for s in seeds:
             r = fams[fid][s]
-            sig = json.dumps([r["nodes"], r["roots"]], sort_keys=True)
+            sig = r["export_sha"]
             rec = by_export.get(sig)
             if rec is None:
+                if r["nodes"] is None:
+                    raise MachineryError(
+                        f"family {fid}: the reflective export of process seed={s} differs "
+                        f"from that of seed={seeds[0]} (the builders are not deterministic)")
                 rec = {"id": fid if not by_export else f"{fid}#{len(by_export)}",
                        "rel": "family", "kind": r["kind"], "ctx": r["ctx"],
                        "names": r["names"], "nodes": r["nodes"], "roots": r["roots"],
@@ -372,10 +383,10 @@ def replay_life(workers: list[Worker], bid: str, subject: str, evs: list[dict]
     return trace
 
 
-def run_life(behs: list[list[dict]], seeds: list[int], groups: int, tag: str
-             ) -> list[dict]:
+def run_life(behs: list[list[dict]], seeds: list[int], groups: int, tag: str,
+             subjects: list[str] | None = None) -> list[dict]:
     """Replay every behaviour for every subject; -> TLC trace records."""
-    jobs = [(bi, subj) for bi in range(len(behs)) for subj in LIFE_SUBJECTS]
+    jobs = [(bi, subj) for bi in range(len(behs)) for subj in (subjects or LIFE_SUBJECTS)]
     records: list[dict] = []
     lock = threading.Lock()
     # rotate the seeds so that the groups do not all use the same pair
@@ -416,40 +427,53 @@ def run_life(behs: list[list[dict]], seeds: list[int], groups: int, tag: str
 def tiers(tier: str) -> dict[str, Any]:
     if tier == "thorough":
         return {"seeds": list(range(16)), "per_seed": 1, "life_depth": 5,
-                "life_sim": 300, "life_sim_depth": 8, "groups": 12}
+                "life_sim": 300, "life_sim_depth": 8, "groups": 12,
+                "life_subjects": None}
     return {"seeds": [0, 1, 2, 3], "per_seed": 4, "life_depth": 4,
-            "life_sim": 30, "life_sim_depth": 6, "groups": 8}
+            "life_sim": 30, "life_sim_depth": 6, "groups": 8,
+            "life_subjects": ["expr", "data", "dict", "call"]}
 
 
 def check_families(run: Run, cases: list[dict], kinds: dict[str, dict], T: dict,
-                   stats: dict) -> list[dict]:
+                   stats: dict, batch: int = 1600) -> list[dict]:
+    """-> light records (without node lists) of all families"""
     seeds = [s + seed() for s in T["seeds"]]
-    t0 = time.time()
-    with Pool(seeds, T["per_seed"]) as pool:
-        fams = eval_families(pool, seeds, T["per_seed"], cases, kinds, want_keys=False)
-    records = family_records(fams, kinds, seeds)
-    stats["wall_family_eval_s"] = round(time.time() - t0, 1)
-    t0 = time.time()
-    val = tlcx.validate("PtEqCheck", "PtEqCheck.cfg", records, timeout=2400,
-                        per_shard=30)
-    stats["wall_family_tlc_s"] = round(time.time() - t0, 1)
-    stats["states"] += val.states
-    stats["transitions"] += val.transitions
-    stats["family_records"] = len(records)
-    stats["family_observations"] = sum(len(r["obs"]) for r in records)
-    stats["pairs_compared"] = sum(len(r["obs"]) * len(r["names"]) ** 2 for r in records)
-    stats["export_variants"] = len(records) - len(fams)
     per_family = {}
-    for rec in records:
-        v = val.verdicts[rec["id"]]
-        if v == "ok":
-            continue
-        if v.startswith("machinery"):
-            raise MachineryError(
-                f"family {rec['id']}: {v}: {str(val.detail.get(rec['id']))[:600]} -- "
-                "the harness did not build what the model describes, or PtEq!Fields "
-                "is out of date")
-        per_family[rec["id"]] = (rec, family_failures(rec, val.detail[rec["id"]]))
+    light: list[dict] = []
+    for k in ("wall_family_eval_s", "wall_family_tlc_s", "family_records",
+              "family_observations", "pairs_compared", "export_variants"):
+        stats[k] = 0
+    with Pool(seeds, T["per_seed"]) as pool:
+        for b0 in range(0, len(cases), batch):
+            part = cases[b0:b0 + batch]
+            t0 = time.time()
+            fams = eval_families(pool, seeds, T["per_seed"], part, kinds, want_keys=False)
+            records = family_records(fams, kinds, seeds)
+            stats["wall_family_eval_s"] += round(time.time() - t0, 1)
+            t0 = time.time()
+            val = tlcx.validate("PtEqCheck", "PtEqCheck.cfg", records, timeout=2400,
+                                per_shard=30, heap="3g")
+            stats["wall_family_tlc_s"] += round(time.time() - t0, 1)
+            stats["states"] += val.states
+            stats["transitions"] += val.transitions
+            stats["family_records"] += len(records)
+            stats["family_observations"] += sum(len(r["obs"]) for r in records)
+            stats["pairs_compared"] += sum(len(r["obs"]) * len(r["names"]) ** 2
+                                           for r in records)
+            stats["export_variants"] += len(records) - len(fams)
+            for rec in records:
+                v = val.verdicts[rec["id"]]
+                lt = {k: rec[k] for k in ("id", "kind", "ctx", "names", "roots", "seeds")}
+                lt["eq_row_of_base"] = rec["obs"][0]["eq"][0]
+                light.append(lt)
+                if v == "ok":
+                    continue
+                if v.startswith("machinery"):
+                    raise MachineryError(
+                        f"family {rec['id']}: {v}: {str(val.detail.get(rec['id']))[:600]} "
+                        "-- the harness did not build what the model describes, or "
+                        "PtEq!Fields is out of date")
+                per_family[rec["id"]] = (lt, family_failures(rec, val.detail[rec["id"]]))
     stats["families_failing"] = len(per_family)
     findings = attribute(per_family)
     for f in findings:
@@ -458,7 +482,7 @@ def check_families(run: Run, cases: list[dict], kinds: dict[str, dict], T: dict,
                       f"families, seeds {sorted(f['seeds'])}; e.g. {f['example']}",
                       record={"check": "family", **f["example"]},
                       observed=f["example"]["pairs"], sig=f["sig"])
-    return records
+    return light
 
 
 def check_life(run: Run, T: dict, stats: dict) -> None:
@@ -477,7 +501,7 @@ def check_life(run: Run, T: dict, stats: dict) -> None:
     if not behs:
         raise MachineryError("PtEqLife generated no behaviour")
     t0 = time.time()
-    records = run_life(behs, seeds, T["groups"], "x") + \
+    records = run_life(behs, seeds, T["groups"], "x", T["life_subjects"]) + \
         run_life(sim, seeds, T["groups"], "s")
     stats["wall_life_replay_s"] = round(time.time() - t0, 1)
     t0 = time.time()
@@ -514,6 +538,57 @@ def judge_life(run: Run, records: list[dict], stats: dict) -> None:
                       sig={"lc": rec["subject"], "clause": clause, "op": ev["op"]})
 
 
+def memo_model(n: int, use_memo: bool = True) -> tlc.TLCResult:
+    from ptverif.common import scratch
+    cfg = os.path.join(scratch(), f"PtEqMemo_{n}_{use_memo}.cfg")
+    with open(cfg, "w") as f:
+        f.write(f"CONSTANTS N = {n} UseMemo = {str(use_memo).upper()}\nINIT Init\nNEXT Next\n"
+                "INVARIANT OncePerPair\nINVARIANT MemoSound\nINVARIANT MemoFunctional\n"
+                "INVARIANT ResultIsStructEq\nCHECK_DEADLOCK FALSE\n")
+    return tlc.run_tlc("PtEqMemo", cfg, workers=NCPU, timeout=1500, heap="4g")
+
+
+def check_memo(run: Run, tier: str, T: dict, stats: dict) -> None:
+    """M: the memoised comparison as a state machine on every pair of
+    expressions over a pool of N nodes; E: event traces of the real comparer
+    on DAGs with 2^n paths judged by the same clauses."""
+    t0 = time.time()
+    res = memo_model(5 if tier == "thorough" else 4)
+    if not res.ok:
+        raise MachineryError(f"PtEqMemo: {res.error or res.violated}")
+    stats["states"] += res.distinct
+    stats["transitions"] += res.generated
+    stats["memo_model_states"] = res.distinct
+    seeds = [s + seed() for s in T["seeds"]][:2]
+    cases = eqlib.memo_cases(tier)
+    with Pool(seeds, 1) as pool:
+        per = pool.map(lambda w: w.call("eqlib.memo", cases=cases))
+    records = []
+    for s, recs in zip(seeds, per):
+        for r in recs:
+            r["id"] = f"{r['id']}@{s}"
+            records.append(r)
+    val = tlcx.validate("PtEqCheck", "PtEqCheck.cfg", records, timeout=1200, per_shard=10)
+    stats["states"] += val.states
+    stats["transitions"] += val.transitions
+    stats["memo_traces"] = len(records)
+    stats["memo_events"] = sum(len(r["evs"]) for r in records)
+    stats["memo_max_paths"] = max(r["paths"] for r in records)
+    stats["wall_memo_s"] = round(time.time() - t0, 1)
+    for rec in records:
+        v = val.verdicts[rec["id"]]
+        if v == "ok":
+            continue
+        if v.startswith("machinery"):
+            raise MachineryError(f"memo trace {rec['id']}: {v} {val.detail.get(rec['id'])}")
+        _, clause, k, _ = val.detail[rec["id"]][0]
+        run.violation(f"memo/{clause}",
+                      f"EqualityComparer on {rec['id']}: {clause} (detail {k}); "
+                      f"{len(rec['evs'])} events, {rec['ncomparers']} comparer(s)",
+                      record={"check": "memo", "id": rec["id"]},
+                      sig={"memo": rec["id"].split("/")[1], "clause": clause})
+
+
 def main(tier: str, only: dict | None = None) -> int:
     run = Run(PROP, tier, "model_checking")
     T = tiers(tier)
@@ -523,13 +598,16 @@ def main(tier: str, only: dict | None = None) -> int:
     stats["transitions"] += gres.generated
     eqlib.check_field_table(table)           # reflective cross-check (machinery)
     if only is not None and only.get("check") == "family":
+        # the failing family plus the contexts the attribution looks at
         cases = [c for c in cases
-                 if c["kind"] == only["kind"] and (c["ctx"] == only["ctx"] or not c["ctx"]
-                                                   or [c["ctx"][0]] == only["ctx"][:1]
-                                                   and len(c["ctx"]) == 1)]
+                 if c["kind"] == only["kind"]
+                 and (c["ctx"] == only["ctx"] or not c["ctx"]
+                      or (len(c["ctx"]) == 1 and c["ctx"][0] in only["ctx"]))]
     records: list[dict] = []
     if only is None or only.get("check") == "family":
         records = check_families(run, cases, kinds, T, stats)
+    if only is None or only.get("check") == "memo":
+        check_memo(run, tier, T, stats)
     if only is None:
         check_life(run, T, stats)
     elif only.get("check") == "life":
@@ -541,13 +619,15 @@ def main(tier: str, only: dict | None = None) -> int:
     run.coverage.update({
         "states": stats["states"], "transitions": stats["transitions"],
         "traces_validated_against_impl":
-            stats.get("family_observations", 0) + stats.get("life_traces", 0),
-        "evaluations": stats.get("pairs_compared", 0) + stats.get("life_events", 0),
-        "distinct_nontrivial": sum(len(r["names"]) * (len(r["names"]) - 1) // 2
-                                   for r in records),
+            stats.get("family_observations", 0) + stats.get("life_traces", 0)
+            + stats.get("memo_traces", 0),
+        "evaluations": stats.get("pairs_compared", 0) + stats.get("life_events", 0)
+            + stats.get("memo_events", 0),
+        "distinct_nontrivial": sum(1 for r in records for i in range(len(r["roots"]))
+                                   for j in range(i) if r["roots"][i] != r["roots"][j]),
         "rule": "one unordered pair of distinct members per (node kind, context) family; "
                 "distinct by (kind, context, member pair); non-trivial = the two members "
-                "are different objects (every pair is)",
+                "are different Python objects (counted from the export's node numbers)",
         "exhaustive": True,
         "node_kinds": nkinds, "kind_member_combinations": nfields,
         "contexts": len(cases), "seeds": [s + seed() for s in T["seeds"]],
@@ -558,13 +638,16 @@ def main(tier: str, only: dict | None = None) -> int:
                  + ("every pair of edge kinds" if tier == "thorough" else
                     "a rotation of edge pairs plus Stack above every edge") + "); "
                  f"life-cycle behaviours of {T['life_depth']} state-changing events "
-                 f"exhaustively (2 processes, 2 mutations) plus {T['life_sim']} simulated "
-                 f"of {T['life_sim_depth']}, each followed by the observation round, for "
-                 f"{len(LIFE_SUBJECTS)} subjects",
+                 f"exhaustively (2 processes, 2 mutations; subjects "
+                 f"{T['life_subjects'] or LIFE_SUBJECTS}) plus simulated ones of "
+                 f"{T['life_sim_depth']} events for all {len(LIFE_SUBJECTS)} subjects, each "
+                 "followed by the observation round; the memoised comparison as a state machine "
+                 f"on all expression pairs over {5 if tier == 'thorough' else 4} pooled nodes "
+                 "and real comparer traces on shared DAGs",
     })
     for r in records[:2]:
         run.sample({"family": r["id"], "members": r["names"], "seeds": r["seeds"],
-                    "eq_row_of_base": r["obs"][0]["eq"][0]})
+                    "eq_row_of_base": r["eq_row_of_base"]})
     run.assumptions += [
         "TLC, the Json module and the reflective exporter (ptverif/eqexport.py: walks "
         "dataclasses.fields, sorts sets and mapping entries canonically) are trusted",
@@ -665,5 +748,28 @@ def selftest(tier: str) -> int:
         print(f"  selftest life {rid}: expected {w or 'HashStable/EqualImpliesSameHash'}, "
               f"TLC said {got}")
         ok &= hit
+    # memo: the model without its memo must violate OncePerPair; a trace with a
+    # repeated enter / a wrong stored result must be rejected
+    res = memo_model(4, use_memo=False)
+    hit = "OncePerPair" in res.violated
+    print(f"  selftest memo model without memo: violated {res.violated}")
+    ok &= hit
+    mrecs = eqlib.h_memo([c for c in eqlib.memo_cases("quick")
+                          if c["id"] == "memo/add/3/shared/same"])
+    g = mrecs[0]
+    b1 = copy.deepcopy(g)
+    b1["id"] = "memo_twice"
+    first = next(e for e in b1["evs"] if e["ev"] == "enter")
+    b1["evs"].append(dict(first))
+    b2 = copy.deepcopy(g)
+    b2["id"] = "memo_wrong"
+    next(e for e in b2["evs"] if e["ev"] == "ret")["res"] = False
+    val = tlcx.validate("PtEqCheck", "PtEqCheck.cfg", [g, b1, b2], shards=1)
+    for rid, w in ((g["id"], "ok"), ("memo_twice", "MemoOncePerPair"),
+                   ("memo_wrong", "MemoSound")):
+        v = val.verdicts[rid]
+        got = v if v != "fail" else val.detail[rid][0][1]
+        print(f"  selftest memo trace {rid}: expected {w}, TLC said {got}")
+        ok &= got == w
     print("selftest", "passed" if ok else "FAILED")
     return 0 if ok else 2
